@@ -155,3 +155,215 @@ def gen_project(seed: int) -> T.Dict[str, str]:
     files['subprojects/spx/sp.c'] = 'int sp(void){return 1;}\n'
     files['subprojects/spx/spe.c'] = 'int sp(void);int main(void){return sp()-1;}\n'
     return files
+
+
+# ---------------------------------------------------------------------------------------------------------------------
+# Tiny language-less projects for two more environment/history dimensions (cheap: ~0.3 s per configuration):
+#   * gen_wrap_project: SEVERAL wrap files (+ bare directories) in subprojects/ with [provide] sections, some of them claiming
+#     the same dependency / program name -- whatever depends on which wrap the resolver registers first depends on readdir order;
+#   * gen_dep_project: dependencies that exist both on the "system" (pkg-config files) and as fallback subprojects (exported
+#     through override_dependency() and/or only through the [sub, var] variable), looked up under dependency-policy options
+#     (force_fallback_for, wrap_mode, pkg_config_path, guarding project options) that CHANGE between two configurations.
+
+_WRAP_NAMES = ['zeta', 'Alpha', 'mid', 'beta', 'omega', 'Gamma', 'k2', 'k10']
+
+
+def gen_wrap_project(seed: int, directed: T.Optional[str] = None) -> T.Tuple[T.Dict[str, str], T.Dict[str, T.Any]]:
+    """directed = a conflict kind ('dep', 'program', 'implicit-name') the project must contain, or None (random)."""
+    r = random.Random(f'wraps:{seed}')
+    files: T.Dict[str, str] = {}
+    nw = 2 if directed == 'dep' else r.randint(2, 4)
+    wnames = r.sample(_WRAP_NAMES, nw)
+    depnames = [f'wd{i}' for i in range(3 if directed == 'dep' else r.randint(2, 4))]
+    prognames = [f'wp{i}' for i in range(r.randint(1, 2))]
+    # who provides what: every name gets one provider; conflicts add a second claimant
+    prov_deps: T.Dict[str, T.List[T.Tuple[str, str]]] = {w: [] for w in wnames}     # wrap -> [(depname, style)]
+    prov_progs: T.Dict[str, T.List[str]] = {w: [] for w in wnames}
+    for d in depnames:
+        prov_deps[r.choice(wnames)].append((d, r.choice(['var', 'names'])))
+    for p in prognames:
+        prov_progs[r.choice(wnames)].append(p)
+    conflicts: T.List[str] = []
+    first_lookup: T.Optional[str] = None
+    kind = directed if directed else r.choice(['none', 'none', 'none', 'none', 'dep', 'dep', 'dep', 'program', 'program', 'implicit-name', 'implicit-name', 'bare-directory'])
+    extra_dirs: T.List[str] = []
+    if kind == 'dep':
+        d = r.choice(depnames)
+        owner = next(w for w in wnames if any(x[0] == d for x in prov_deps[w]))
+        other = r.choice([w for w in wnames if w != owner])
+        # both claimants export the name through a variable only: an override_dependency() by whichever subproject happens to be
+        # configured first would decide the lookup whatever the resolver says
+        prov_deps[owner] = [(x, 'var' if x == d else st) for x, st in prov_deps[owner]]
+        prov_deps[other].append((d, 'var'))
+        first_lookup = d
+        conflicts.append(f'dependency {d}: {owner} and {other}')
+    elif kind == 'program':
+        conflict_prog = r.choice(prognames)
+        owner = next(w for w in wnames if conflict_prog in prov_progs[w])
+        other = r.choice([w for w in wnames if w != owner])
+        prov_progs[other].append(conflict_prog)
+        conflicts.append(f'program {conflict_prog}: {owner} and {other}')
+    elif kind == 'implicit-name':
+        # a wrap file provides its own (lower-cased) name implicitly: another wrap claims that name in its [provide]
+        target = r.choice(wnames)
+        other = r.choice([w for w in wnames if w != target])
+        prov_deps[other].append((target.lower(), 'var'))
+        prov_deps[target].append((target.lower(), 'self'))       # the subproject overrides its own name, the wrap file does not say so
+        depnames.append(target.lower())
+        first_lookup = target.lower()
+        conflicts.append(f'dependency {target.lower()}: wrap file {target} (implicit) and {other}')
+    elif kind == 'bare-directory':
+        # a directory without wrap file is a package of its own name; a wrap claims that name
+        dn = 'baredir'
+        extra_dirs.append(dn)
+        other = r.choice(wnames)
+        prov_deps[other].append((dn, 'var'))
+        depnames.append(dn)
+        conflicts.append(f'dependency {dn}: directory {dn} and {other}')
+    if r.random() < 0.5:
+        extra_dirs.append('plainsub')
+    if r.random() < 0.4:
+        files['subprojects/packagefiles/readme.txt'] = 'x\n'
+    for w in wnames:
+        directory = w if r.random() < 0.6 else f'{w}-1.{r.randint(0, 9)}'
+        names_style = [d for d, st in prov_deps[w] if st == 'names']
+        var_style = [d for d, st in prov_deps[w] if st == 'var']
+        wl = ['[wrap-file]', f'directory = {directory}', '']
+        if names_style or var_style or prov_progs[w]:
+            wl.append('[provide]')
+            if names_style:
+                wl.append('dependency_names = ' + ', '.join(names_style))
+            if prov_progs[w]:
+                wl.append('program_names = ' + ', '.join(prov_progs[w]))
+            for d in var_style:
+                wl.append(f'{d} = {d}_dep')
+        files[f'subprojects/{w}.wrap'] = '\n'.join(wl) + '\n'
+        sl = [f"project('{w}', version: '{r.randint(1, 9)}.{r.randint(0, 9)}')"]
+        for d, st in prov_deps[w]:
+            sl.append(f"{d}_dep = declare_dependency(variables: {{'origin': '{w}'}}, version: '{len(w)}.{len(d)}')")
+            if st in ('names', 'self'):
+                sl.append(f"meson.override_dependency('{d}', {d}_dep)")
+        for p in prov_progs[w]:
+            sl.append(f"meson.override_find_program('{p}', files('{p}.py'))")
+            files[f'subprojects/{directory}/{p}.py'] = f'#!/usr/bin/env python3\nprint("{p} of {w}")\n'
+        sl.append(f"configure_file(output: 'sub-{w}.txt', configuration: {{'me': '{w}'}})")
+        files[f'subprojects/{directory}/meson.build'] = '\n'.join(sl) + '\n'
+    for dn in extra_dirs:
+        files[f'subprojects/{dn}/meson.build'] = (f"project('{dn}', version: '0.{len(dn)}')\n{dn}_dep = declare_dependency(variables: {{'origin': 'dir-{dn}'}})\n"
+                                                  f"meson.override_dependency('{dn}', {dn}_dep)\n")
+    L = [f"project('wr{seed}', version: '1.0', meson_version: '>=1.1')", "cd = configuration_data()", "origins = []"]
+    lookups = list(depnames)
+    r.shuffle(lookups)
+    if first_lookup:
+        # looked up before any subproject has been configured (and has had the occasion to override names)
+        lookups.remove(first_lookup)
+        lookups.insert(0, first_lookup)
+    if kind == 'program':
+        prognames.sort(key=lambda x: x != conflict_prog)
+    for d in lookups:
+        # a dependency that is not required only falls back to a providing wrap when asked to
+        L.append(f"{d} = dependency('{d}'" + r.choice(["", ", required: false, allow_fallback: true"]) + ")")
+        L.append(f"cd.set('FOUND_{d.upper()}', {d}.found())")
+        L.append(f"if {d}.found()\n  cd.set('ORIGIN_{d.upper()}', {d}.get_variable('origin', default_value: 'none'))\n"
+                 f"  cd.set('VERSION_{d.upper()}', {d}.version())\n  origins += ['{d}=' + {d}.get_variable('origin', default_value: 'none')]\nendif")
+    PL: T.List[str] = []
+    for p in prognames:
+        PL.append(f"{p} = find_program('{p}')")
+        PL.append(f"cd.set('PROG_{p.upper()}', {p}.found() ? {p}.full_path() : 'none')")
+        PL.append(f"if {p}.found()\n  custom_target('run-{p}', output: 'run-{p}.txt', command: [{p}], capture: true)\nendif")
+    if kind == 'program':
+        L[3:3] = PL
+    else:
+        L += PL
+    for dn in extra_dirs:
+        if dn not in depnames:
+            L.append(f"subproject('{dn}', required: false)")
+    L.append("configure_file(output: 'wraps.h', configuration: cd)")
+    L.append("custom_target('origins', output: 'origins.txt', command: ['echo', origins], capture: true, build_by_default: true)")
+    files['meson.build'] = '\n'.join(L) + '\n'
+    return files, {'wraps': sorted(wnames), 'conflict_kind': kind, 'conflicts': conflicts, 'lookups': lookups, 'programs': prognames,
+                   'bare_directories': extra_dirs}
+
+
+def gen_dep_project(seed: int, directed: bool = False) -> T.Tuple[T.Dict[str, str], T.Dict[str, T.Any]]:
+    """files, meta.  meta['deps'] = [{name, sub, export, lookup, guarded}], meta['histories'] = [(name, [option vectors of the successive configurations], transition)];
+    an option vector is a dict {force: [names], wrap_mode: str, pc: 'pc'|'pc2', use: {i: bool}}."""
+    r = random.Random(f'deps:{seed}')
+    files: T.Dict[str, str] = {}
+    n = 2 if directed else r.randint(2, 4)
+    deps: T.List[T.Dict[str, T.Any]] = []
+    for i in range(n):
+        export = r.choice(['var', 'var', 'override', 'both'])
+        lookup = r.choice(['fallback-pair', 'fallback-pair', 'wrap-provide-var'] if export == 'var'
+                          else ['fallback-pair', 'fallback-name', 'wrap-provide-names', 'wrap-provide-var'] if export == 'both'
+                          else ['fallback-name', 'wrap-provide-names'])
+        deps.append({'name': f'dq{i}', 'sub': f'sq{i}', 'export': export, 'lookup': lookup, 'guarded': r.random() < 0.4,
+                     'in_pc2': r.random() < 0.5})
+    if directed:
+        deps[0].update(export='var', lookup='fallback-pair', guarded=False, in_pc2=True)
+        deps[1].update(export='both', lookup='fallback-pair', guarded=True, in_pc2=False)
+    L = [f"project('dh{seed}', version: '1.0', meson_version: '>=1.1')", "cd = configuration_data()", "flavours = []"]
+    opts = []
+    for i, d in enumerate(deps):
+        name, sub = d['name'], d['sub']
+        kw = {'fallback-pair': f", fallback: ['{sub}', '{name}_dep']", 'fallback-name': f", fallback: '{sub}'"}.get(d['lookup'], '')
+        body = [f"d{i} = dependency('{name}', required: false{kw})",
+                f"cd.set('FOUND_{i}', d{i}.found())",
+                f"if d{i}.found()",
+                f"  fl{i} = d{i}.get_variable(pkgconfig: 'flavour', internal: 'flavour', default_value: 'none')",
+                f"  cd.set('TYPE_{i}', d{i}.type_name())", f"  cd.set('VERSION_{i}', d{i}.version())", f"  cd.set('FLAVOUR_{i}', fl{i})",
+                f"  flavours += ['{name}=' + fl{i}]",
+                "endif"]
+        if d['guarded']:
+            opts.append(f"option('use{i}', type: 'boolean', value: true)")
+            L.append(f"if get_option('use{i}')")
+            L += ['  ' + x for x in body]
+            L.append('endif')
+        else:
+            L += body
+        for which, present, ver in (('pc', True, f'1.{i}'), ('pc2', d['in_pc2'], f'2.{i}')):
+            if present:
+                files[f'{which}/{name}.pc'] = (f"flavour=system-{which}\nName: {name}\nDescription: {name} of {which}\nVersion: {ver}\n"
+                                               f"Cflags: -DFROM_{which.upper()}_{i}\n")
+        sl = [f"project('{sub}', version: '9.{i}')", f"{name}_dep = declare_dependency(variables: {{'flavour': 'subproject-{sub}'}}, version: '9.{i}')"]
+        if d['export'] in ('override', 'both'):
+            sl.append(f"meson.override_dependency('{name}', {name}_dep)")
+        files[f'subprojects/{sub}/meson.build'] = '\n'.join(sl) + '\n'
+        if d['lookup'].startswith('wrap-provide'):
+            files[f'subprojects/{sub}.wrap'] = (f"[wrap-file]\ndirectory = {sub}\n\n[provide]\n" +
+                                                (f"dependency_names = {name}\n" if d['lookup'] == 'wrap-provide-names' else f"{name} = {name}_dep\n"))
+    files['pc2/.keep'] = ''
+    L.append("configure_file(output: 'deps.h', configuration: cd)")
+    L.append("custom_target('flavours', output: 'flavours.txt', command: ['echo', flavours], capture: true, build_by_default: true)")
+    files['meson.build'] = '\n'.join(L) + '\n'
+    if opts:
+        files['meson.options'] = '\n'.join(opts) + '\n'
+    guarded = [i for i, d in enumerate(deps) if d['guarded']]
+    names = [d['name'] for d in deps]
+
+    def vec(**kw: T.Any) -> T.Dict[str, T.Any]:
+        v: T.Dict[str, T.Any] = {'force': [], 'wrap_mode': 'default', 'pc': 'pc', 'use': {i: True for i in guarded}}
+        v.update(kw)
+        return v
+
+    def rand_vec() -> T.Dict[str, T.Any]:
+        return vec(force=sorted(r.sample(names, r.randint(0, len(names)))) if r.random() < 0.6 else [],
+                   wrap_mode=r.choice(['default', 'default', 'forcefallback', 'nofallback', 'nodownload']),
+                   pc=r.choice(['pc', 'pc', 'pc2']), use={i: r.random() < 0.6 for i in guarded})
+    # a history = option vectors of the successive configurations of one build directory; the last one is compared with a fresh setup
+    hists: T.List[T.Tuple[str, T.List[dict], str]] = []
+    if directed:
+        hists.append(('system-found-then-force-fallback-for', [vec(), vec(force=[names[0]])], 'reconfigure'))
+        hists.append(('lookup-no-longer-evaluated', [vec(), vec(use={i: False for i in guarded})], 'reconfigure'))
+        hists.append(('system-found-then-wrap-mode-forcefallback', [vec(), vec(wrap_mode='forcefallback')], 'configure'))
+        hists.append(('forced-fallback-then-system', [vec(force=list(names)), vec()], 'reconfigure'))
+        hists.append(('lookup-first-evaluated-by-reconfigure', [vec(use={i: False for i in guarded}, force=[names[0]]), vec()], 'reconfigure'))
+        hists.append(('search-path-there-and-back', [vec(), vec(pc='pc2'), vec()], 'reconfigure'))
+        hists.append(('search-path-changed', [vec(), vec(pc='pc2')], 'configure'))
+    else:
+        for _ in range(3):
+            vs = [rand_vec() for _ in range(3 if r.random() < 0.3 else 2)]
+            if vs[-2] == vs[-1]:
+                vs[-1] = vec(force=[names[0]]) if vs[-2]['force'] != [names[0]] or vs[-2]['wrap_mode'] != 'default' else vec(wrap_mode='forcefallback')
+            hists.append(('random-policy-change', vs, r.choice(['reconfigure', 'configure'])))
+    return files, {'deps': deps, 'histories': hists}
